@@ -2,8 +2,8 @@ import VelaVerif.Model.RawOutput
 import VelaVerif.Spec.RawOutput
 import VelaVerif.Handlers.Serialise
 /-!
-`rawmodel spill=<0|1> in=<t>;<t>;… out=<t>;…`, `<t>` = `<memtype>!<addr|->!<elem size>!<d.d.…>!<hex|->`
-  (the operands / results of the first call operator as Vela's tensors describe them)
+`rawmodel pad=<0|1> spill=<0|1> in=<t>;<t>;… out=<t>;…`, `<t>` = `<memtype>!<addr|->!<elem size>!<d.d.…>!<hex|->`
+  (the operands / results of the first call operator as Vela's tensors describe them; pad = the live writer has the repair C12-30)
   answer `ok <npz>` | `err:<kind>`, `<npz>` = `cmd=<len>:<adler32>|- w=… wr=<n> ss=<d.d> sr=<n> fs=<d.d> fr=<n> in=<io>;… out=<io>;…`,
   `<io>` = `<d.d.…>/<elem size>/<region>/<offset|->`
 `rawcheck acc=<i> words=<w>,… tcmd=<hex> tflash=<hex> tss=<n> tfs=<n> tin=<plan offset>:<elem size>:<d.d.…>;… tout=…
@@ -65,11 +65,16 @@ def parseTfl (s : String) : Option (Int × Nat × List Nat) :=
   | _ => none
 
 open VelaVerif.Spec.RawOutput in
-/-- one listed tensor of the .npz names the same bytes as the tensor of the TFLite output -/
+/-- a shape without its leading 1s (the repaired writer pads the shorter shapes of a list with leading 1s) -/
+def core (s : List Nat) : List Nat := s.dropWhile (· == 1)
+
+open VelaVerif.Spec.RawOutput in
+/-- one listed tensor of the .npz names the same bytes as the tensor of the TFLite output: same offset, same element size, same
+    shape up to leading 1s -/
 def sameIo (r : RawIo) (t : Int × Nat × List Nat) : Bool :=
   match r.offset with
   | none => false
-  | some a => decide ((a : Int) = t.1) && r.elemSize == t.2.1 && r.shape == t.2.2
+  | some a => decide ((a : Int) = t.1) && r.elemSize == t.2.1 && core r.shape == core t.2.2
 
 open VelaVerif.Spec.RawOutput in
 def sameIos (rs : List RawIo) (ts : List (Int × Nat × List Nat)) : Bool :=
@@ -88,7 +93,7 @@ def handle : List String → Option String
     let spill ← kv toks "spill"
     let ins ← (splitNE (← kv toks "in") ";").mapM parseTensor
     let outs ← (splitNE (← kv toks "out") ";").mapM parseTensor
-    match writeRaw (archOf (spill == "1")) ins outs with
+    match writeRawG ((kv toks "pad") == some "1") (archOf (spill == "1")) ins outs with
     | .ok z => some ("ok " ++ npzStr z)
     | .error e => some (errStr e)
   | "rawspec" :: toks => do
